@@ -38,16 +38,18 @@ package indexer
 //@   requires forall j int :: 0 <= j && j < len(blk.Block.Txs) ==> !isnil(blk.Block.Txs[j])
 //@   modifies i.blockIDToHeight[], i.txCache[]
 //@   loop 1 invariant 0 <= idx1 && idx1 <= len(blk.Block.Txs)
-//@   loop 1 invariant forall q ids.ID :: has(i.blockIDToHeight, q) == entry(1, has(i.blockIDToHeight, q)) && i.blockIDToHeight[q] == entry(1, i.blockIDToHeight[q])
-//@   ensures !has(i.blockIDToHeight, chain.StatelessBlock.GetID(blk.Block))
-//@   ensures forall q ids.ID :: q != chain.StatelessBlock.GetID(blk.Block) ==> has(i.blockIDToHeight, q) == old(has(i.blockIDToHeight, q)) && i.blockIDToHeight[q] == old(i.blockIDToHeight[q])
+//@   loop 1 invariant @g:idx forall q ids.ID :: has(i.blockIDToHeight, q) == entry(1, has(i.blockIDToHeight, q)) && i.blockIDToHeight[q] == entry(1, i.blockIDToHeight[q])
+//@   ensures @g:idx !has(i.blockIDToHeight, chain.StatelessBlock.GetID(blk.Block))
+//@   ensures @g:idx forall q ids.ID :: q != chain.StatelessBlock.GetID(blk.Block) ==> has(i.blockIDToHeight, q) == old(has(i.blockIDToHeight, q)) && i.blockIDToHeight[q] == old(i.blockIDToHeight[q])
 
 // inserting an accepted block (heights arrive in increasing order, possibly with gaps after state
 // sync) keeps exactly the window ending at the new height
 //@ func (*Indexer).insertBlockIntoCache props C31
 //@   reveal RI inWin RID
 //@   uses blockid_height
-//@   requires RI(i) && RID(i) && i.blockWindow >= 1 && !isnil(i.blockHeightToBlock) && !isnil(i.blockIDToHeight) && !isnil(i.txCache)
+//@   opt usesgroup idx
+//@   requires @g:idx RID(i)
+//@   requires RI(i) && i.blockWindow >= 1 && !isnil(i.blockHeightToBlock) && !isnil(i.blockIDToHeight) && !isnil(i.txCache)
 //@   requires !isnil(blk.Block) && blk.Block.Hght < MAX && (i.lastHeight == MAX || blk.Block.Hght >= i.lastHeight)
 //@   requires forall j int :: 0 <= j && j < len(blk.Block.Txs) ==> !isnil(blk.Block.Txs[j])
 //@   requires forall g uint64, j int :: has(i.blockHeightToBlock, g) && 0 <= j && j < len(i.blockHeightToBlock[g].Block.Txs) ==> !isnil(i.blockHeightToBlock[g].Block.Txs[j])
@@ -59,15 +61,15 @@ package indexer
 //@   loop 1 invariant i.lastHeight == old(i.lastHeight)
 //@   loop 1 invariant forall g uint64 :: has(i.blockHeightToBlock, g) ==> !isnil(i.blockHeightToBlock[g]) && !isnil(i.blockHeightToBlock[g].Block) && i.blockHeightToBlock[g].Block.Hght == g
 //@   loop 1 invariant forall g uint64, j int :: has(i.blockHeightToBlock, g) && 0 <= j && j < len(i.blockHeightToBlock[g].Block.Txs) ==> !isnil(i.blockHeightToBlock[g].Block.Txs[j])
-//@   loop 1 invariant forall g uint64 :: has(i.blockHeightToBlock, g) ==> has(i.blockIDToHeight, chain.StatelessBlock.GetID(i.blockHeightToBlock[g].Block)) && i.blockIDToHeight[chain.StatelessBlock.GetID(i.blockHeightToBlock[g].Block)] == g
+//@   loop 1 invariant @g:idx forall g uint64 :: has(i.blockHeightToBlock, g) ==> has(i.blockIDToHeight, chain.StatelessBlock.GetID(i.blockHeightToBlock[g].Block)) && i.blockIDToHeight[chain.StatelessBlock.GetID(i.blockHeightToBlock[g].Block)] == g
 //@   loop 2 invariant 0 <= idx2 && idx2 <= len(blk.Block.Txs)
-//@   loop 2 invariant forall q ids.ID :: has(i.blockIDToHeight, q) == entry(2, has(i.blockIDToHeight, q)) && i.blockIDToHeight[q] == entry(2, i.blockIDToHeight[q])
+//@   loop 2 invariant @g:idx forall q ids.ID :: has(i.blockIDToHeight, q) == entry(2, has(i.blockIDToHeight, q)) && i.blockIDToHeight[q] == entry(2, i.blockIDToHeight[q])
 //@   loop 2 invariant forall g uint64 :: has(i.blockHeightToBlock, g) == entry(2, has(i.blockHeightToBlock, g)) && i.blockHeightToBlock[g] == entry(2, i.blockHeightToBlock[g])
 //@   ensures i.lastHeight == blk.Block.Hght && has(i.blockHeightToBlock, blk.Block.Hght) && i.blockHeightToBlock[blk.Block.Hght] == blk
 //@   ensures RI(i)
 // the new block and every block still cached are found by id (also when the tip is delivered again)
-//@   ensures has(i.blockIDToHeight, chain.StatelessBlock.GetID(blk.Block)) && i.blockIDToHeight[chain.StatelessBlock.GetID(blk.Block)] == blk.Block.Hght
-//@   ensures RID(i)
+//@   ensures @g:idx has(i.blockIDToHeight, chain.StatelessBlock.GetID(blk.Block)) && i.blockIDToHeight[chain.StatelessBlock.GetID(blk.Block)] == blk.Block.Hght
+//@   ensures @g:idx RID(i)
 
 // lookups answer from the window (C31): a height is served iff it is cached -- hence, with RI, only
 // heights in (last - window, last] -- and the latest block is the one at lastHeight
